@@ -2,7 +2,8 @@
    ancestry; with all validators honest and timely delivery finality keeps advancing."  Model: Bft/Model.v. *)
 From Coq Require Import List NArith Bool Lia.
 From Verif Require Import Common.Util Bft.Tree Bft.Model Bft.Quorum Bft.ProofsTally Bft.ProofsChain Bft.ProofsNode
-  Bft.Safety Bft.ProofsWitness Bft.ProofsFinal Bft.ProofsMonotone Bft.ProofsCommit.
+  Bft.Safety Bft.ProofsWitness Bft.ProofsFinal Bft.ProofsMonotone Bft.ProofsCommit
+  Bft.ProofsFind Bft.ProofsLive Bft.ProofsLive2 Bft.ProofsVote Bft.ProofsSuffix.
 Import ListNotations.
 Open Scope N_scope.
 
@@ -93,6 +94,61 @@ Theorem finalized_moves_forward guard c r e b packing :
   exists x, In x (chain_of r (b_id b)) /\ e_fin e' = b_id x /\ idnum (e_fin e) <= b_num x.
 Proof. exact (commit_block_finalized guard c r e b packing). Qed.
 
+(* 3c. liveness (third sentence).
+   (i)  On a node that has seen only one chain (every stored block lies on the chain of every later one), whatever it
+        voted before and whether its votes record is live or rebuilt after a restart, ShouldVote answers COM exactly
+        when the new block is past the first round and the parent's quality is positive.
+   (ii) honest_chain = every block carries that bit.  On such a chain an epoch in which more than two thirds (count or
+        weight, as Summarize selects) signed is justified, and if the chain already held a justified epoch when it
+        began, all its votes are COM and it is committed.
+   (iii) CommitBlock of its last block then moves finalized to the checkpoint of the previous epoch (when that epoch was
+        itself the first to reach its quality: it was justified, or it is finalized's own epoch). *)
+Theorem honest_vote_on_one_chain c r e p a : 0 < c_L c ->
+  grounded r -> wf_repo r -> qs_ok c r (e_qs e) -> In p r ->
+  match e_casts e with Some ca => casts_stored r ca | None => True end ->
+  idnum (e_fin e) = a * c_L c ->
+  (s_just (state_pure c (chain_of r (b_id p))) = false -> c_L c <= b_num p -> a * c_L c + c_L c <= checkpoint (c_L c) (b_num p)) ->
+  snd (should_vote c r e (b_id p)) =
+  Ok (negb ((b_num p + 1) / c_L c =? 0) && (0 <? quality_pure c (chain_of r (b_id p)))).
+Proof. intros HL. exact (should_vote_linear c HL r e p a). Qed.
+
+Theorem quorum_is_justified c pq seg :
+  (if thr_weight c =? 0 then thr_votes c <? N.of_nat (length (signers seg))
+   else thr_weight c <? sumw (weight_of c) (signers seg)) = true <->
+  s_just (summarize (tally c pq seg)) = true.
+Proof. split; [exact (quorum_justifies c pq seg) | exact (justified_needs_quorum c pq seg)]. Qed.
+
+Theorem linear_liveness c ch b t kb : 0 < c_L c ->
+  grounded ch -> ch = b :: t -> honest_chain c ch -> b_num b = kb * c_L c + c_L c - 1 -> 1 <= kb ->
+  (if thr_weight c =? 0 then thr_votes c <? N.of_nat (length (signers (snd (epoch_info c ch))))
+   else thr_weight c <? sumw (weight_of c) (signers (snd (epoch_info c ch)))) = true ->
+  1 <= quality_pure c (suffix_at (kb * c_L c - 1) ch) ->
+  s_just (state_pure c ch) = true /\ s_comm (state_pure c ch) = true /\
+  quality_pure c ch = quality_pure c (suffix_at (kb * c_L c - 1) ch) + 1.
+Proof. intros HL. exact (epoch_committed c HL ch b t kb). Qed.
+
+Theorem finalized_advances_at_store_point c r e b a kb : 0 < c_L c ->
+  wf_repo r -> find_blk r (b_id b) = Some b ->
+  qs_ok c r ((b_id b, s_q (compute_state c r (e_qs e) b)) :: e_qs e) ->
+  compute_state c r (e_qs e) b = state_pure c (chain_of r (b_id b)) ->
+  idnum (e_fin e) = a * c_L c -> b_num b = kb * c_L c + c_L c - 1 -> a < kb ->
+  s_comm (state_pure c (chain_of r (b_id b))) = true -> 1 < quality_pure c (chain_of r (b_id b)) ->
+  (kb - 1 = a \/ (2 <= kb /\ q_epoch c r (b_id b) (kb - 2) < q_epoch c r (b_id b) (kb - 1))) ->
+  exists y, block_at r (b_id b) ((kb - 1) * c_L c) = Some y /\ b_num y = (kb - 1) * c_L c /\
+            e_fin (fst (commit_block true c r e b false)) = b_id y.
+Proof. intros HL. exact (commit_finalizes c HL r e b a kb). Qed.
+
+(* non-vacuity: n = 4, L = 4, blocks 1..3 non-COM (first round), 4..7 COM, four distinct signers per epoch *)
+Definition live_chain : list blk :=
+  rev (gen :: map (fun k => mkB (mkid k 1) (mkid (k - 1) 1) (k mod 4 + 1) (3 <? k) k) [1;2;3;4;5;6;7]).
+Example linear_liveness_example :
+  grounded live_chain /\ honest_chain cfg4 live_chain /\
+  s_comm (state_pure cfg4 live_chain) = true /\ quality_pure cfg4 live_chain = 2.
+Proof.
+  split; [vm_compute; intuition reflexivity|]. split; [|vm_compute; split; reflexivity].
+  unfold live_chain. cbn [rev map app honest_chain]. repeat split; intros _; vm_compute; reflexivity.
+Qed.
+
 (* 4. general safety.  The statement over all valid runs (every honest block proposed by its signer on its own best
       block with the engine's COM bit, score increments within 1..n being *data* of the run, fewer than a third
       Byzantine) is REFUTED in the model: the `quality >= headQuality-1` window of ShouldVote forgets an own
@@ -125,5 +181,9 @@ Print Assumptions finalized_monotone_step.
 Print Assumptions finalized_monotone.
 Print Assumptions accepted_block_imports_without_error.
 Print Assumptions finalized_moves_forward.
+Print Assumptions honest_vote_on_one_chain.
+Print Assumptions quorum_is_justified.
+Print Assumptions linear_liveness.
+Print Assumptions finalized_advances_at_store_point.
 Print Assumptions bft_safety_without_premise_refuted.
 Print Assumptions f4_needs_tie_switch.
